@@ -26,7 +26,8 @@ Judge(rec) ==
       chain == f.chain
       pre == [k \in 1..Len(s0.opts) |-> IF k <= Len(s0.d.opts) THEN s0.opts[k].init ELSE <<>>]
       crashed == o.panic \/ o.timeout
-      isHelp == rec.kind \in {"help", "errhelp"}
+      isHelp == rec.kind \in {"help", "errhelp", "rehelp"}      \* "rehelp": written a second time on one parser after options were hidden and shown
+                                                                   \* again and the terminal was resized - the text is a function of the parser as it is now
       spec == HelpLines(s0, chain, rec.width, pre)
       okKind == rec.kind # "errhelp" \/ f.err.t = "ErrHelp"
   IN [C17 |-> (isHelp /\ okKind) => (~crashed /\ LayoutOK(o.lines, s0, chain, rec.width, pre)),
